@@ -149,7 +149,7 @@ func propC01(c *Check) {
 	thOK := false
 	for _, e := range Exits(th) {
 		s := p.R(th).E(e.Ret.Results[0])
-		if s == "math.Ceil((((1 + len($0.Voters)) * 2) / 3))" || s == "math.Ceil(((2 * (1 + len($0.Voters))) / 3))" {
+		if s == "int(math.Ceil(((2 * float((1 + len($0.Voters)))) / 3)))" {
 			thOK = true
 		} else {
 			thOK = false
